@@ -63,6 +63,7 @@ type Scn struct {
 	Phases []Phase `json:"phases"`
 	ID     int     `json:"id"`
 	Seed   int64   `json:"seed"`
+	NoPerm bool    `json:"noperm,omitempty"`
 }
 
 const (
@@ -209,17 +210,34 @@ func (d *ixDst) ReceiveBlob(ctx context.Context, br blob.Ref, r io.Reader) (blob
 	return sb, err
 }
 
-// qKV is the queue gate.
+// qKV is the queue gate.  The uploader's Set and the copier's Delete of the same row may run concurrently
+// (the handler notes the blob in memory before it writes the row); the gate performs a call's effect and
+// then logs it, so the mutex makes the order of the log lines the order of the effects.
 type qKV struct {
 	*gate.KV
 	fl *flight
+	mu *sync.Mutex
 }
 
-func (q *qKV) Set(k, v string) error { q.fl.in(); defer q.fl.out(); return q.KV.Set(k, v) }
-func (q *qKV) Delete(k string) error { q.fl.in(); defer q.fl.out(); return q.KV.Delete(k) }
+func (q *qKV) Set(k, v string) error {
+	q.fl.in()
+	defer q.fl.out()
+	q.mu.Lock()
+	defer q.mu.Unlock()
+	return q.KV.Set(k, v)
+}
+func (q *qKV) Delete(k string) error {
+	q.fl.in()
+	defer q.fl.out()
+	q.mu.Lock()
+	defer q.mu.Unlock()
+	return q.KV.Delete(k)
+}
 func (q *qKV) Find(s, e string) sorted.Iterator {
 	q.fl.in()
 	defer q.fl.out()
+	q.mu.Lock()
+	defer q.mu.Unlock()
 	return q.KV.Find(s, e)
 }
 
@@ -312,6 +330,7 @@ type run struct {
 	acked  map[int]bool
 	tried  map[int]bool
 	nextWk int
+	qmu    sync.Mutex
 	calls  []int // lower-layer calls of each phase (dry run)
 	wakes  int
 }
@@ -341,7 +360,7 @@ func (r *run) start(ph *Phase) bool {
 		return k
 	}
 	qname := fmt.Sprintf("c19q%d", kvSeq.Add(1))
-	gate.RegisterNamedKV(qname, &qKV{KV: q, fl: r.fl})
+	gate.RegisterNamedKV(qname, &qKV{KV: q, fl: r.fl, mu: &r.qmu})
 	ld := &loader{m: map[string]blobserver.Storage{"/src/": inc.src}}
 	died := func(err error) bool {
 		if inc.plan.Frozen() {
@@ -370,7 +389,7 @@ func (r *run) start(ph *Phase) bool {
 	}
 	if r.scn.Cfg == "index" {
 		kv := gate.NewKV("ixkv", r.ixBack, inc.plan, nil)
-		ix, err := index.New(kv)
+		ix, err := newIndex(kv, inc.plan)
 		if err != nil {
 			return died(err)
 		}
@@ -400,6 +419,20 @@ func (r *run) start(ph *Phase) bool {
 	}
 	inc.h = h
 	return true
+}
+
+// newIndex opens the index; index.New panics when its first row read fails, which is what a process dying
+// at that call amounts to.
+func newIndex(kv sorted.KeyValue, plan *gate.Plan) (ix *index.Index, err error) {
+	defer func() {
+		if p := recover(); p != nil {
+			if !plan.Frozen() {
+				panic(p)
+			}
+			err = fmt.Errorf("index.New: %v", p)
+		}
+	}()
+	return index.New(kv)
 }
 
 // noteCrash writes the crash mark of an incarnation whose plan froze: once, and after every lower-layer
@@ -474,7 +507,34 @@ func (r *run) delivered(id int) string {
 	return "corrupt"
 }
 
+// handled: the destination has taken the blob.  For the index that includes a blob it accepted but cannot
+// index before a dependency arrives (it keeps a missing|blob|dependency row and indexes it later by itself).
+func (r *run) handled(id int) bool {
+	if r.delivered(id) == "delivered" {
+		return true
+	}
+	if r.scn.Cfg != "index" {
+		return false
+	}
+	br := r.u.refs[id].String()
+	if _, err := r.ixBack.Get("have:" + br); err == nil {
+		return true
+	}
+	it := r.ixBack.Find("missing|"+br+"|", "missing|"+br+"}")
+	defer it.Close()
+	return it.Next()
+}
+
 func (r *run) allDelivered() bool {
+	for id := range r.ackedSnapshot() {
+		if !r.handled(id) {
+			return false
+		}
+	}
+	return true
+}
+
+func (r *run) allIndexed() bool {
 	for id := range r.ackedSnapshot() {
 		if r.delivered(id) != "delivered" {
 			return false
@@ -495,13 +555,37 @@ func (r *run) ackedSnapshot() map[int]bool {
 	return m
 }
 
+func (r *run) undelivered() bool { return !r.allDelivered() }
+
 func (r *run) queueEmpty() bool { return len(gate.Dump(r.qBack)) == 0 }
+
+// settled: every acknowledged blob is at the destination and the queue is empty - or has stayed as it is
+// while nothing happened at the gates for a while (a row written after its blob was delivered stays until
+// the next restart; whether the rows that are left are legitimate is for the specification to say).
+func (r *run) settled() func() bool {
+	var since time.Time
+	last := int64(-1)
+	return func() bool {
+		if !r.allDelivered() {
+			since = time.Time{}
+			return false
+		}
+		if r.queueEmpty() {
+			return true
+		}
+		if n := r.lg.Len(); n != last || since.IsZero() {
+			last, since = n, time.Now()
+			return false
+		}
+		return time.Since(since) > 25*time.Millisecond && r.fl.n.Load() == 0
+	}
+}
 
 // await polls cond; while nothing happens at the gates it wakes the copy loop
 // the only way the handler offers: by enqueueing a blob it has not seen (the
 // loop otherwise sleeps for the 5 s queueSyncInterval after a round in which
 // every copy failed).  Returns false on watchdog expiry or when the incarnation froze.
-func (r *run) await(cond func() bool, wd time.Duration) bool {
+func (r *run) await(cond func() bool, wd time.Duration, needWork func() bool) bool {
 	inc := r.cur
 	deadline := time.Now().Add(wd)
 	last := r.lg.Len()
@@ -520,7 +604,7 @@ func (r *run) await(cond func() bool, wd time.Duration) bool {
 		}
 		if n := r.lg.Len(); n != last {
 			last, lastT = n, now
-		} else if now.Sub(lastT) > idle {
+		} else if now.Sub(lastT) > idle && needWork() {
 			if r.nextWk <= maxBlob {
 				id := r.nextWk
 				r.nextWk++
@@ -549,7 +633,13 @@ func (r *run) exec() {
 	for pi := range scn.Phases {
 		ph := &scn.Phases[pi]
 		last := pi == len(scn.Phases)-1
-		ups := append(append([]int(nil), carry...), ph.Ups...)
+		ups := append([]int(nil), carry...)
+		for _, j := range ph.Ups {
+			if scn.Cfg == "index" && !scn.NoPerm && j >= 1 && j <= nWorld {
+				j = ixPerms[scn.ID%len(ixPerms)][j-1]
+			}
+			ups = append(ups, j)
+		}
 		carry = nil
 		if last && scn.Cfg == "index" {
 			// the world is completed so that every dependency can be resolved
@@ -599,7 +689,7 @@ func (r *run) exec() {
 		}
 		if !last {
 			// let the incarnation work until it dies at its crash point, or has nothing left to do
-			r.await(func() bool { return r.allDelivered() && r.queueEmpty() }, watchdog/2)
+			r.await(r.settled(), watchdog/2, r.undelivered)
 			r.calls = append(r.calls, inc.plan.Calls())
 			if !r.crashed() {
 				r.kill()
@@ -619,13 +709,13 @@ func (r *run) exec() {
 			continue
 		}
 		// last phase: use up the armed faults, heal, wait (bounded) for delivery
-		r.await(func() bool { return inc.plan.HitCount() == len(inc.plan.Faults) && inc.src.consumed() }, watchdog)
+		r.await(func() bool { return inc.plan.HitCount() == len(inc.plan.Faults) && inc.src.consumed() }, watchdog, func() bool { return true })
 		r.fl.drain()
 		inc.src.mu.Lock()
 		inc.src.healed = true
 		r.mark("heal")
 		inc.src.mu.Unlock()
-		r.await(func() bool { return r.allDelivered() && r.queueEmpty() }, watchdog)
+		r.await(r.settled(), watchdog, r.undelivered)
 		if inc.dstI != nil && !inc.plan.Frozen() {
 			done := make(chan bool, 1)
 			go func() { inc.dstI.Index.VerifAwaitAsyncIndexing(); done <- true }()
@@ -633,12 +723,21 @@ func (r *run) exec() {
 			case <-done:
 			case <-time.After(watchdog):
 			}
-			r.await(func() bool { return r.allDelivered() }, watchdog/4)
+			r.await(r.allIndexed, watchdog/4, func() bool { return false })
 		}
 		r.calls = append(r.calls, inc.plan.Calls())
 		// stop the world, then observe
 		inc.plan.Freeze()
 		r.fl.drain()
+	}
+	if os.Getenv("C19_DEBUG") != "" && r.scn.Cfg == "index" {
+		for k, v := range gate.Dump(r.ixBack) {
+			for id := 1; id <= nWorld; id++ {
+				if bytes.Contains([]byte(k), []byte(r.u.refs[id].String())) && (k[:4] == "have" || k[:4] == "miss") {
+					fmt.Fprintf(os.Stderr, "run freeze=%v ixrow %s = %s   (blob %d is %s)\n", r.scn.Phases[0].Freeze, k, v, id, r.u.refs[id])
+				}
+			}
+		}
 	}
 	rows := gate.Dump(r.qBack)
 	seen := map[int]bool{}
@@ -711,7 +810,9 @@ func emitRun(scn *Scn, evs []gate.Event) {
 	outMu.Lock()
 	defer outMu.Unlock()
 	hdr := gate.Event{"ev": "reset", "b": 0, "res": scn.Cfg, "scn": scn}
+	sg := nRuns.Load() + 1
 	for _, e := range append([]gate.Event{hdr}, evs...) {
+		e["sg"] = sg
 		b, err := json.Marshal(e)
 		if err != nil {
 			fatal(err)
@@ -723,7 +824,27 @@ func emitRun(scn *Scn, evs []gate.Event) {
 	nRuns.Add(1)
 }
 
+// ixPerms: in the index configuration scenario blob j is world item ixPerms[id%4][j-1], so that claims and
+// permanodes also reach the index before the key / permanode they depend on.
+var ixPerms = [][]int{{1, 2, 3, 4}, {2, 1, 3, 4}, {3, 1, 2, 4}, {4, 2, 1, 3}}
+
+func norm(scn *Scn) {
+	for i := range scn.Phases {
+		ph := &scn.Phases[i]
+		if ph.Ups == nil {
+			ph.Ups = []int{}
+		}
+		if ph.Dst == nil {
+			ph.Dst = []string{}
+		}
+		if ph.Src == nil {
+			ph.Src = []string{}
+		}
+	}
+}
+
 func runOne(scn *Scn) []int {
+	norm(scn)
 	u := uniMem
 	if scn.Cfg == "index" {
 		u = uniIx
